@@ -27,6 +27,11 @@ COUNT-SHAPE - in the leaf of the label partition OK = |X & rok|,
 KO = |X & rko|, total = |X| for the same X, rok / rko are forwarded unchanged
 by the recursion and come from the SUCCESS / FAILURE entries of the _result
 label (so OK + KO = total given CLS-KEY's exclusive labels).
+CLS-READ - no function that touches a classification (summaries,
+classification_counts, stats representers) reads the defaultdict with a key
+that is not drawn from it (an inserting read changes the key-based verdict).
+COUNT-SHAPE also understands the selection-parameter spelling of the label
+recursion (ids narrowed by intersection at every level).
 Not decided: that the recursive partition through the Index equals a naive
 partition; the behaviour on empty inputs; uniqueness of names.
 '''
@@ -41,6 +46,7 @@ def check(ctx):
     ctx.run(diag.check_cls_key)
     ctx.run(diag.check_verdict_keys)
     ctx.run(diag.check_count_shape)
+    ctx.run(diag.check_cls_read)
 
 
 def variants(program):
@@ -282,4 +288,50 @@ def variants(program):
                         ok = True
         return ok
     add('twin-intersection-method', 'twin', intersection_call)
+    def _selection_recursion(passed):
+        def editor(tree):
+            fun = find_func(tree, 'TestStatsTestsByLabels._rloop_over_labels')
+            doc = [s_ for s_ in fun.body if isinstance(s_, ast.Expr) and
+                   isinstance(s_.value, ast.Constant)]
+            fun.args.args.append(ast.arg(arg='ids'))
+            fun.args.defaults.append(ast.Constant(value=None))
+            fun.body = doc + parse_stmts(
+                'label = labels[0]\n'
+                'lres = []\n'
+                'if label not in index:\n'
+                '    return []\n'
+                'for lab, labset in index.get(label, {}).items():\n'
+                '    selected = labset if ids is None else labset & ids\n'
+                '    if not selected:\n'
+                '        continue\n'
+                '    if len(labels) > 1:\n'
+                '        lres.extend(self._rloop_over_labels(index, '
+                f'labels[1:], rok, rko, plab=plab + (lab,), ids={passed}))\n'
+                '    else:\n'
+                "        lres.append({'labels': plab + (lab,), "
+                "'OK': len(selected & rok), 'KO': len(selected & rko), "
+                "'total': len(selected)})\n"
+                'return lres')
+            return True
+        return editor
+    add('seed-selection-of-previous-labels-dropped', 'mutant',
+        _selection_recursion('labset'), {'COUNT-SHAPE'},
+        note='seed C18-r2-2: from the third label on a result is counted in '
+             'sibling rows')
+    add('twin-selection-narrowed-by-intersection', 'twin',
+        _selection_recursion('selected'),
+        note='undecided is allowed, an alarm is not')
+
+    def counts_index(tree):
+        # seed C18-r2-1 (= the F14 defect): counting inserts the statuses
+        fun = find_func(tree, 'classification_counts')
+        return replace_first(
+            fun, lambda n: isinstance(n, ast.Call) and call_name(n) == 'get'
+            and txt(n.func.value) == 'classify',
+            lambda n: ast.Subscript(value=n.func.value, slice=n.args[0],
+                                    ctx=ast.Load()))
+    add('seed-counting-inserts-unobserved-statuses', 'mutant', counts_index,
+        {'CLS-READ'}, quick=True,
+        note='an all-successful summary is False once it was tabulated')
+
     return out
